@@ -118,6 +118,42 @@ func c09Exec(o c09Op) (dig string) {
 		return sha(digest1(calendar.NewSolar(a[0], a[1], a[2], a[3], a[4], a[5]).GetLunar().Next(a[6])))
 	case "nsolar":
 		return sha(calendar.NewSolar(a[0], a[1], a[2], a[3], a[4], a[5]).ToYmdHms())
+	case "setters":
+		// objects handed out by accessors are modified through their public setters; later queries (on fresh objects)
+		// must be unaffected. The digest is a constant unless something leaked, so it is also history-independent.
+		mk := func() *calendar.Lunar { return calendar.NewSolar(a[0], a[1], a[2], a[3], a[4], a[5]).GetLunar() }
+		before := digest1(mk()) + digest1(mk().GetEightChar())
+		hBefore := fmt.Sprint(HolidayUtil.GetHolidayByYmd(a[0], a[1], a[2]))
+		l := mk()
+		if sj := l.GetShuJiu(); sj != nil {
+			sj.SetName("x")
+			sj.SetIndex(77)
+		}
+		if fu := l.GetFu(); fu != nil {
+			fu.SetName("x")
+			fu.SetIndex(77)
+		}
+		for _, jq := range []*calendar.JieQi{l.GetPrevJieQi(), l.GetNextJieQi(), l.GetPrevJie(), l.GetNextQi(), l.GetCurrentJieQi()} {
+			if jq != nil {
+				jq.SetName("大雪")
+				jq.SetSolar(calendar.NewSolarFromYmd(2000, 1, 1))
+			}
+		}
+		l.GetEightChar().SetSect(1)
+		if h := HolidayUtil.GetHolidayByYmd(a[0], a[1], a[2]); h != nil {
+			h.SetName("x")
+			h.SetWork(!h.IsWork())
+			h.SetTarget("2000-01-01")
+			h.SetDay("2000-01-01")
+		}
+		after := digest1(mk()) + digest1(mk().GetEightChar())
+		if after != before {
+			return "LEAK: after setters were called on objects returned for this date, a fresh Lunar of the same date differs: " + diffDigests(before, after)
+		}
+		if hAfter := fmt.Sprint(HolidayUtil.GetHolidayByYmd(a[0], a[1], a[2])); hAfter != hBefore {
+			return "LEAK: holiday record of the date changed after the returned object was modified: " + hBefore + " -> " + hAfter
+		}
+		return "no-leak"
 	case "dtt":
 		return fmt.Sprintf("%.12g", ShouXingUtil.DtT(float64(a[0])/1000))
 	case "astro":
@@ -326,7 +362,11 @@ func c09Ops(seed int64, n int) (ops []c09Op, hostile []c09Op) {
 		y := c09Years[rng.Intn(len(c09Years))]
 		_, m, d := day(y)
 		h, mi, s := rng.Intn(24), rng.Intn(60), rng.Intn(60)
-		switch rng.Intn(17) {
+		switch rng.Intn(18) {
+		case 17:
+			// winter and summer dates so that nine-nines / dog-day objects exist, holiday dates now and then
+			dd := [][2]int{{12, 25}, {1, 5}, {2, 1}, {7, 20}, {8, 10}, {10, 1}, {5, 1}}[rng.Intn(7)]
+			ops = append(ops, c09Op{K: "setters", A: []int{2001 + rng.Intn(24), dd[0], dd[1] + rng.Intn(3), h, mi, s}})
 		case 15:
 			// delta-T at (and near) the knots of the library's table: days from J2000, in thousandths
 			kn := ShouXingUtil.DT_AT[rng.Intn(len(ShouXingUtil.DT_AT)/5)*5]
@@ -783,6 +823,10 @@ func c09Custom(pc *Parent) {
 	judge := func(mode string, idx int, evs []c09Event) {
 		for _, e := range evs {
 			pc.R.Evals++
+			if strings.HasPrefix(e.D, "LEAK") {
+				pc.Violate("setter-leak", all[e.I].String(), fmt.Sprintf("%s: %s", all[e.I].String(), e.D), nil, map[string]interface{}{"op": all[e.I]})
+				continue
+			}
 			if e.D != refDig[e.I] {
 				what := fmt.Sprintf("digest %.16s vs %.16s", e.D, refDig[e.I])
 				if all[e.I].K == "obj" {
